@@ -71,6 +71,11 @@ def market_and_configs():
         dict(base, name='fixed-longonly-daily-end-as-plain-day',
              alpha={'kind': 'fixed', 'weights': {'EQ:CCC': 0.2, 'EQ:AAA': 0.5, 'EQ:BBB': 0.3}},
              rebalance='daily', long_only=True, buffer=0.05, end=rm.utc(datetime.date(2020, 3, 2), 0, 0).isoformat()),
+        # knife-edge sizing: weights whose float sum depends on the order of addition (0.1, 0.2, 0.3), round prices and a
+        # round account, so that the last bit of a sum decides a share - identical inputs must still give one result
+        dict(base, name='knife-edge-daily', market='round', cash=1000000.0, fee=['zero'],
+             alpha={'kind': 'fixed', 'weights': {'EQ:CCC': 0.3, 'EQ:AAA': 0.1, 'EQ:BBB': 0.2}},
+             rebalance='daily', long_only=True, buffer=0.0),
         dict(base, name='late-data-momentum', market='late', alpha={'kind': 'mom_top1', 'lookback': 1}, rebalance='daily',
              long_only=True, buffer=0.05),
     ]
@@ -88,6 +93,9 @@ def market_for(cfg):
         market = dict(market)
         market['AAA'] = [r for r in market['AAA'] if r[0] >= datetime.date(2020, 2, 27)]
         market['AAA@2'] = sl.make_market(days, {'X': ('zigzag', '77.77')})['X']
+    if cfg.get('market') == 'round':
+        days = rm.bdays(datetime.date(2020, 2, 17), datetime.date(2020, 3, 6))
+        market = sl.make_market(days, {'AAA': ('flat', '50'), 'BBB': ('flat', '125'), 'CCC': ('flat', '100')})
     if cfg.get('market') == 'late':
         days = rm.bdays(datetime.date(2020, 2, 17), datetime.date(2020, 3, 6))
         market = dict(market)
